@@ -199,3 +199,49 @@ def run(chk, repo):
     chk.ob('C08.e', 'skip only if seq in denylist and (not start codon or seq[1:] in denylist)', repo.loc(jm, ifs[0]) if ifs else jm.where, okk,
            'a start-codon peptide whose M-retaining form is canonical is skipped although its M-removed form is not canonical: that digestion product is lost',
            key=jm.qual + '::denylist-start-codon', fn=jm.qual)
+
+    # ---------------------------------------------------------------- f
+    from sa.affine import simple_aff, Aff
+    chk.rule('C08.f', 'R-AFFINE-EQV: ORF header coordinates span exactly the listed sequence', 4)
+    lp = [l for l in walk_no_nested(go.node) if isinstance(l, ast.For) and 'orf_id_map' in unparse(l.iter)]
+    if len(lp) != 1:
+        raise AnalysisError(f"anchor={ORFS}: loop over orf_id_map not found")
+    env = {}
+    finds = []          # (name, base text, lower bound) of `X = <base>[lo:].find('*')`
+    fallback = None     # affine value assigned under `if X == -1`
+    for st in lp[0].body:
+        if isinstance(st, ast.Assign) and len(st.targets) == 1 and isinstance(st.targets[0], ast.Name):
+            v = st.value
+            nm = st.targets[0].id
+            if isinstance(v, ast.Call) and call_name(v) == 'find' and isinstance(v.func.value, ast.Subscript) and isinstance(v.func.value.slice, ast.Slice):
+                sl = v.func.value
+                finds.append((nm, unparse(sl.value), simple_aff(sl.slice.lower, env) if sl.slice.lower is not None else Aff(0), sl.slice.upper))
+                env[nm] = Aff.sym('L')       # the length of the ORF in residues, whichever branch defines it
+                continue
+            a = simple_aff(v, env)
+            env[nm] = a if a is not None else Aff.sym('?' + nm)
+        elif isinstance(st, ast.If) and finds and unparse(st.test) == f"{finds[0][0]} == -1":
+            for s2 in st.body:
+                if isinstance(s2, ast.Assign) and unparse(s2.targets[0]) == finds[0][0]:
+                    fallback = (s2, simple_aff(s2.value, env))
+    if len(finds) != 1:
+        raise AnalysisError(f"anchor={ORFS}: stop-codon search `<seq>[start:].find('*')` not found")
+    nm, base, lo, up = finds[0]
+    want = Aff.sym(f"len({base})") - lo
+    chk.ob('C08.f', f"without a stop codon the ORF length is the length of the searched slice, len({base}) - ({lo})", repo.loc(go, fallback[0]) if fallback else go.where,
+           fallback is not None and up is None and fallback[1] is not None and fallback[1] == want,
+           f"fallback length is `{unparse(fallback[0].value) if fallback else None}` = {fallback[1] if fallback else None}, but the slice searched for '*' has "
+           f"{want} residues: for an ORF running to the transcript end the header end coordinate differs from start + 3 * len(sequence) "
+           "(frames 1 and 2 have fewer codons than len(tx) // 3 whenever len(tx) % 3 < frame)", key=f"{ORFS}::no-stop-length", fn=go.qual)
+    oe, os_, se, ss = env.get('orf_end'), env.get('orf_start'), env.get('seq_end'), env.get('seq_start')
+    ok1 = None not in (oe, os_) and (oe - os_) == Aff.sym('L').scale(3)
+    chk.ob('C08.f', 'orf_end - orf_start == 3 * length', go.where, bool(ok1), f"orf_end - orf_start = {oe - os_ if None not in (oe, os_) else None} (L = residues)",
+           key=f"{ORFS}::nt-span", fn=go.qual)
+    ok2 = None not in (se, ss) and (se - ss) == Aff.sym('L') and ss == lo
+    chk.ob('C08.f', 'seq_end - seq_start == length, and seq_start is where the stop search began', go.where, bool(ok2),
+           f"seq_end - seq_start = {se - ss if None not in (se, ss) else None}; search began at {lo}, slice begins at {ss}", key=f"{ORFS}::aa-span", fn=go.qual)
+    sls = [n for n in ast.walk(lp[0]) if isinstance(n, ast.Subscript) and isinstance(n.slice, ast.Slice) and n.slice.upper is not None
+           and unparse(n.slice.lower or ast.Constant(0)) == 'seq_start' and unparse(n.slice.upper) == 'seq_end']
+    ok3 = len(sls) == 1 and base in (unparse(sls[0].value), unparse(sls[0].value) + '.seq')
+    chk.ob('C08.f', 'the listed sequence is [seq_start:seq_end] of the translation that was searched', go.where, ok3,
+           f"listed slice base {[unparse(x.value) for x in sls]} vs searched {base}", key=f"{ORFS}::same-translation", fn=go.qual)
